@@ -439,6 +439,28 @@ def check_primitives(prog):
             if ok:
                 conds.append(("loop", type(x.test.ops[0]).__name__, c, x))
 
+    # the same decisions taken through a flag: more = value > 0 ... while more: ... digit | 128 if more else digit
+    flags = {}
+    for x in ast.walk(r.node):
+        if isinstance(x, ast.Assign) and len(x.targets) == 1 and isinstance(x.targets[0], ast.Name) and isinstance(x.value, ast.Compare) \
+                and len(x.value.ops) == 1:
+            ok, c = r.fold(x.value.comparators[0])
+            if ok:
+                flags[x.targets[0].id] = (type(x.value.ops[0]).__name__, c, x)
+    for x in ast.walk(r.node):
+        if isinstance(x, ast.While) and isinstance(x.test, ast.Name) and x.test.id in flags:
+            opn, c, nd = flags[x.test.id]
+            conds.append(("loop", opn, c, nd))
+        if isinstance(x, ast.IfExp) and any(isinstance(y, ast.BinOp) and isinstance(y.op, ast.BitOr) for y in ast.walk(x.body)):
+            t = x.test
+            if isinstance(t, ast.Name) and t.id in flags:
+                opn, c, nd = flags[t.id]
+                conds.append(("cont", opn, c, nd))
+            elif isinstance(t, ast.Compare) and len(t.ops) == 1:
+                ok, c = r.fold(t.comparators[0])
+                if ok:
+                    conds.append(("cont", type(t.ops[0]).__name__, c, x))
+
     def more(op, c):    # does the test mean "value > 0" ?
         return (op == "Gt" and c == 0) or (op == "GtE" and c == 1) or (op == "NotEq" and c == 0)
 
@@ -477,8 +499,9 @@ def check_primitives(prog):
     if not steps:
         # two phases: the 7-bit digits are collected (least significant first) up to the first byte without continuation bit, then
         # folded from the most significant one:  value = value * 128 + digit  over reversed(digits) / digits.pop()
+        # (the 7-bit mask is applied when the digit is collected, or when it is folded)
         coll = [x for x in ast.walk(r.node) if isinstance(x, ast.Call) and isinstance(x.func, ast.Attribute) and x.func.attr == "append"
-                and x.args and isinstance(x.args[0], ast.BinOp) and isinstance(x.args[0].op, ast.BitAnd)]
+                and x.args and ((isinstance(x.args[0], ast.BinOp) and isinstance(x.args[0].op, ast.BitAnd)) or isinstance(x.args[0], ast.Name))]
         fold = [x for x in ast.walk(r.node) if isinstance(x, ast.Assign) and isinstance(x.value, ast.BinOp) and isinstance(x.value.op, ast.Add)
                 and isinstance(x.value.left, ast.BinOp) and isinstance(x.value.left.op, (ast.Mult, ast.LShift))
                 and U(x.value.left.left) == U(x.targets[0])]
